@@ -222,10 +222,16 @@ type client struct {
 	st     int
 	flag   bool // closed flag as of the last point at which the model steps this registrant: "does not believe"
 	doomed bool
-	spy    *regSpy
-	cal    *calcium.Calcium // mode S
-	mon    *monCluster      // mode R
-	cur    *crun
+	// S: spy.count() when the harness revoked this registrant's lease (what it does
+	// afterwards is its reaction to the notification)
+	doomBase int
+	// S: pending because its re-registration after a notification was rejected
+	// (somebody registered while it was lapsed): it retries every heartbeat interval
+	rereg bool
+	spy   *regSpy
+	cal   *calcium.Calcium // mode S
+	mon   *monCluster      // mode R
+	cur   *crun
 }
 
 // lazy joins: a cancelled selfmon.run returns only after its pause; the schedule
@@ -405,17 +411,32 @@ func runClientSchedule(t *testing.T, joins *sync.WaitGroup, sp spec, b backend) 
 			return
 		}
 		c := spy.count()
+		if cs[j].rereg {
+			// S: see MTickAll - a missing heartbeat retry of a registrant whose rejected
+			// re-registration was observed is itself an observation, not a timing failure
+			limit := 5 * b.hb()
+			if limit < 3*time.Second {
+				limit = 3 * time.Second
+			}
+			if !waitFor(limit, func() bool { return spy.count() > c }) {
+				note("pending-but-no-retry")
+				cs[j].st, cs[j].rereg = cZombie, false
+			}
+			return
+		}
 		if !waitFor(attemptLimit, func() bool { return spy.count() > c }) {
 			invalid("no-retry-while-aligning")
 		}
 	}
-	lapsedLast := false // mode S on etcd: the last operation was an MLapse that hit a believer
+	lapsedLast := false    // mode S on etcd: the last operation was an MLapse that hit a believer
+	contestedLast := false // mode S on etcd: the last operation was an MReg right after such an MLapse
 	exec := func(o mop) {
 		ob := observation{Res: "ResNone"}
-		lapsedNow := false
+		lapsedNow, contestedNow := false, false
 		switch o.K {
 		case kReg:
 			c := cs[o.I]
+			contestedNow = sp.mode == "S" && b.name() == "etcd" && lapsedLast
 			base := c.spy.count()
 			run := start(o.I)
 			c.cur, c.doomed = run, false
@@ -441,6 +462,11 @@ func runClientSchedule(t *testing.T, joins *sync.WaitGroup, sp spec, b backend) 
 				c.flag = notBelieving(c)
 			case errors.Is(c.spy.at(base).err, types.ErrKeyExists):
 				ob.Res, c.st, c.flag = "ResExists", cPending, true
+				if contestedNow {
+					// the lapsed registrant was notified and registered again before this
+					// call: not the order the schedule assumes (the model registers i here)
+					invalid("order-not-as-assumed")
+				}
 			default:
 				note("other-error-in-start")
 				ob.Res, c.st, c.flag = "ResOther", cPending, true
@@ -448,7 +474,20 @@ func runClientSchedule(t *testing.T, joins *sync.WaitGroup, sp spec, b backend) 
 		case kLapse:
 			align()
 			if ex, owner, _, _ := b.look(); ex && b.name() == "etcd" && owner >= 0 && owner < len(cs) && cs[owner].st == cBeliever {
-				cs[owner].doomed = true
+				c := cs[owner]
+				if sp.contest && sp.mode == "S" {
+					// an MReg may follow at once and must win against the notification of
+					// the lapsed registrant, which comes with its next tick: revoke shortly
+					// after a tick (ticks: every hb/3 from the registration on)
+					period := b.hb() / 3
+					if at := c.spy.lastAt(); !at.IsZero() && period > 200*time.Millisecond {
+						waitFor(2*period, func() bool {
+							ph := time.Since(at) % period
+							return ph >= 30*time.Millisecond && ph <= period/3
+						})
+					}
+				}
+				c.doomed, c.doomBase = true, c.spy.count()
 				lapsedNow = true
 			}
 			note(b.lapse())
@@ -467,6 +506,9 @@ func runClientSchedule(t *testing.T, joins *sync.WaitGroup, sp spec, b backend) 
 			// reRegisterLimit, that is what is observed and emitted)
 			if j := doomedIdx(); j >= 0 {
 				c := cs[j]
+				if sp.mode == "S" {
+					c0[j] = c.doomBase // its reaction may have begun before this MTickAll
+				}
 				if !waitFor(settleLimit, func() bool { return c.spy.channelClosed() || c.spy.count() > c0[j] }) {
 					invalid("doomed-believer-not-notified")
 				} else if sp.mode == "S" && !waitFor(reRegisterLimit, func() bool { return c.spy.count() > c0[j] }) {
@@ -474,7 +516,21 @@ func runClientSchedule(t *testing.T, joins *sync.WaitGroup, sp spec, b backend) 
 				}
 			}
 			// the pending registrant makes one more attempt
-			if p0 >= 0 {
+			if p0 >= 0 && cs[p0].rereg {
+				// S: its notification and its rejected re-registration have been observed;
+				// it retries every heartbeat interval.  If no attempt shows up within
+				// max(5 heartbeats, 3 s) - and the run's stall probe stays clean, which
+				// the caller checks - that is what is observed and emitted
+				limit := 5 * b.hb()
+				if limit < 3*time.Second {
+					limit = 3 * time.Second
+				}
+				if !waitFor(limit, func() bool { return cs[p0].spy.count() > c0[p0] }) {
+					note("pending-but-no-retry")
+					cs[p0].st, cs[p0].rereg = cZombie, false // no retry is expected from it any more
+					p0 = -1
+				}
+			} else if p0 >= 0 {
 				if !waitFor(attemptLimit, func() bool { return cs[p0].spy.count() > c0[p0] }) {
 					invalid("no-retry-in-tick")
 				}
@@ -492,7 +548,7 @@ func runClientSchedule(t *testing.T, joins *sync.WaitGroup, sp spec, b backend) 
 			registered := false
 			if p0 >= 0 && cs[p0].spy.successes() > s0[p0] {
 				c := cs[p0]
-				c.st, c.doomed, registered = cBeliever, false, true
+				c.st, c.doomed, c.rereg, registered = cBeliever, false, false, true
 				if sp.mode == "S" && !waitFor(watchdog, func() bool { return isClosed(c.cur.done) }) {
 					note("registered-but-RegisterService-blocked")
 				}
@@ -520,9 +576,10 @@ func runClientSchedule(t *testing.T, joins *sync.WaitGroup, sp spec, b backend) 
 					c.st = cIdle // notified, and it does not register again: emitted as observed
 				case pendingIdx() < 0:
 					c.st = cPending // R: after its pause; S: retrying every heartbeat interval
-					if sp.mode == "S" {
-						// not reachable under the generator rules (the re-registration is
-						// immediate and beats the aligned pending registrant)
+					c.rereg = sp.mode == "S"
+					if sp.mode == "S" && !(sp.contest && keyPresent()) {
+						// only a registrant that registered while this one was lapsed can
+						// make the immediate re-registration fail (contest schedules)
 						invalid("re-registration-rejected")
 					}
 				default:
@@ -565,7 +622,7 @@ func runClientSchedule(t *testing.T, joins *sync.WaitGroup, sp spec, b backend) 
 				if !waitFor(watchdog, func() bool { return !c.spy.busy() }) {
 					note("attempt-in-flight-after-stop")
 				}
-				c.st = cIdle
+				c.st, c.rereg = cIdle, false
 				c.flag = notBelieving(c)
 			case cBeliever, cZombie:
 				align()
@@ -600,7 +657,7 @@ func runClientSchedule(t *testing.T, joins *sync.WaitGroup, sp spec, b backend) 
 		if o.K == kTick || o.K == kStop {
 			ob.Closed = flags()
 		}
-		lapsedLast = lapsedNow
+		lapsedLast, contestedLast = lapsedNow, contestedNow
 		out.ops = append(out.ops, o)
 		out.obs = append(out.obs, ob)
 	}
@@ -610,7 +667,14 @@ func runClientSchedule(t *testing.T, joins *sync.WaitGroup, sp spec, b backend) 
 		if pendingIdx() >= 0 && !keyPresent() {
 			return true // a free key and a contender: the next retry takes it
 		}
-		return sp.mode == "S" && b.name() == "etcd" && lapsedLast
+		// S on etcd: the notified registrant reacts within one tick; after the MReg of
+		// a contest its notification has to be observed while the new holder holds
+		return sp.mode == "S" && b.name() == "etcd" && (lapsedLast || contestedLast)
+	}
+	// contest (S, etcd, contest schedules only): an MReg right after the MLapse of a
+	// believer, validated by its result (see kReg)
+	contestOK := func(i int) bool {
+		return sp.contest && sp.mode == "S" && b.name() == "etcd" && lapsedLast && pendingIdx() < 0 && cs[i].st == cIdle
 	}
 	legalReg := func(i int) bool {
 		if pendingIdx() >= 0 || cs[i].st != cIdle {
@@ -626,7 +690,7 @@ func runClientSchedule(t *testing.T, joins *sync.WaitGroup, sp spec, b backend) 
 			if out.invalid != "" {
 				return out
 			}
-			if o.K != kTick && forcedTick() {
+			if o.K != kTick && forcedTick() && !(o.K == kReg && contestOK(o.I)) {
 				exec(mop{kTick, 0})
 			}
 			if (o.K == kReg && !legalReg(o.I)) || (o.K == kLapse && !legalLapse()) {
@@ -638,7 +702,17 @@ func runClientSchedule(t *testing.T, joins *sync.WaitGroup, sp spec, b backend) 
 		rng := rand.New(rand.NewSource(sp.seed))
 		for k := 0; k < sp.length && out.invalid == ""; k++ {
 			if forcedTick() {
-				exec(mop{kTick, 0})
+				var free []int
+				for i := range cs {
+					if contestOK(i) {
+						free = append(free, i)
+					}
+				}
+				if len(free) > 0 && rng.Intn(2) == 0 {
+					exec(mop{kReg, free[rng.Intn(len(free))]})
+				} else {
+					exec(mop{kTick, 0})
+				}
 				continue
 			}
 			var idle, live []int
@@ -751,6 +825,12 @@ func clientCorpus(mode string) [][]mop {
 		{R(0), R(1), T, L, T, T, S(1), T, S(0)},
 		// a lapse with nobody waiting: the registrant comes back by itself
 		{R(0), L, T, T, S(0)},
+	}
+	if mode == "S" {
+		// contest (the only schedule with an MReg right after the MLapse of a
+		// believer): 1 registers while 0 is lapsed, 0's re-registration is rejected,
+		// 1 stops, 0 must register again at its next heartbeat retry
+		corpus = append(corpus, []mop{R(0), L, R(1), T, S(1), T, S(0)})
 	}
 	if mode == "R" {
 		// the old watcher's registration lapses, another watcher becomes active, then
